@@ -1437,6 +1437,29 @@ func (e *taintEngine) collectSinks(fn *ssa.Function) {
 			if (x.Op == token.QUO || x.Op == token.REM) && isIntegral(x.Type()) {
 				e.sink(fn, in, "divide", core.Describe(x), x.Y, func(f factBits) bool { return f&fNZ != 0 })
 			}
+		case *ssa.If:
+			// the exit test of a loop: a counter compared with a value from the stream makes the number of
+			// iterations the stream's choice ("never ... loop forever": 2^62 iterations is for ever)
+			b := x.Block()
+			isHeader := false
+			for _, p := range b.Preds {
+				if b.Dominates(p) {
+					isHeader = true
+				}
+			}
+			if !isHeader {
+				return
+			}
+			if cmp, ok := x.Cond.(*ssa.BinOp); ok {
+				switch cmp.Op {
+				case token.LSS, token.LEQ, token.GTR, token.GEQ, token.NEQ:
+					for _, side := range []ssa.Value{cmp.X, cmp.Y} {
+						if isIntegral(side.Type()) {
+							e.sink(fn, in, "loop-bound", core.Describe(cmp), side, func(f factBits) bool { return f&fEQ != 0 || f&fUB != 0 })
+						}
+					}
+				}
+			}
 		case ssa.CallInstruction:
 			if e.cfg.ExternalSinkArgs != nil {
 				for _, ai := range e.cfg.ExternalSinkArgs(x) {
